@@ -796,8 +796,22 @@ def run(ctx: Any, prog: Program) -> None:
     pb, ge, gf = edb['_parse_block'], edb['get_ent'], edb['get_fgd']
     psrc = U(pb)
     stores = [n for n in ast.walk(pb) if isinstance(n, ast.Assign) and any(isinstance(t, ast.Subscript) and dotted(t.value) == 'self.ent_map' for t in n.targets)]
-    ok = len(stores) == 1 and isinstance(stores[0].value, ast.Call) and dotted(stores[0].value.func) == 'ent_unserialise'
-    ctx.check('C16.Q5', ok, db, pb, '_parse_block stores only freshly unserialised entities into ent_map', func='EngineDB._parse_block', text='only fresh entities stored')
+    def stored_value(a_: ast.Assign) -> ast.AST:
+        # `tbl[k] = ent` with `ent = ent_unserialise(...)` just before: the local's single definition is what is stored
+        v_ = a_.value
+        if isinstance(v_, ast.Name):
+            d_ = [x.value for x in walk_no_nested(pb) if isinstance(x, ast.Assign) and any(isinstance(t, ast.Name) and t.id == v_.id for t in x.targets)]
+            if len(d_) == 1:
+                v_ = d_[0]
+        return v_
+    if len(stores) == 1:
+        sv5 = stored_value(stores[0])
+        if isinstance(sv5, ast.Call):
+            ctx.check('C16.Q5', dotted(sv5.func) == 'ent_unserialise', db, stores[0], f'_parse_block stores `{U(sv5)[:60]}` into ent_map: only freshly unserialised entities belong there', func='EngineDB._parse_block', text='only fresh entities stored')
+        else:
+            ctx.shape('C16.Q5', False, db, stores[0], f'value stored into ent_map (`{U(sv5)[:50]}`) is not a recognisable call', func='EngineDB._parse_block', text='only fresh entities stored')
+    else:
+        ctx.shape('C16.Q5', False, db, pb, f'_parse_block stores into ent_map at {len(stores)} sites (1 expected)', func='EngineDB._parse_block', text='only fresh entities stored')
     # unserialise functions hand out objects created in that very call: a definition shared between entities (a cache) makes what
     # one lookup returns depend on which block was parsed first, and lets one caller's edits leak into another entity
     for fname, cname in (('kv_unserialise', 'KVDef'), ('iodef_unserialise', 'IODef'), ('ent_unserialise', 'EntityDef')):
